@@ -436,6 +436,33 @@ pub fn run(ctx: &Ctx, id: &str) -> i32 {
                     r.count("non_fault_runs", 1);
                 }
             }
+            // a slow but healthy terminal: *every* packet of the operation arrives 10 / 25 s after the previous one (inside the
+            // time the client waits for a packet; the operation as a whole takes minutes): success on the one connection
+            if shard == 1 % threads {
+                for op in OPS {
+                    // not `new`: its packets are the handshake's, which the client bounds as a whole (60 s), so a
+                    // handshake of 4 x 25 s is a time-out by the client's own definition, not a healthy exchange
+                    if op == Op::New {
+                        continue;
+                    }
+                    for secs in [10u32, 25] {
+                        let (mut sc, idx) = skeleton(op, &base_cfg);
+                        if op == Op::ReadCard {
+                            sc.cfg.read_card_timeout = 60;
+                        }
+                        for p in 0..points[&op].len() {
+                            sc.plan.faults.push(FaultSpec { call: idx, at: At::Tx(p), kind: FaultKind::Pause(secs) });
+                        }
+                        let label = format!("{op:?}: no fault, every packet arrives {secs} s after the previous one");
+                        let tr = run_and_judge(r, id, &sc, idx, &schema, &label, true);
+                        let opened = tr.log.iter().filter(|e| e.dir == Dir::Open).count();
+                        if !tr.calls.iter().all(|c| c.result.is_ok()) || opened != 1 {
+                            r.violation("C09: a healthy terminal is abandoned (every packet arrives within the per-packet wait, the exchange as a whole takes longer)", &format!("{label}: {} connections opened, results {:?}", opened, tr.calls.iter().map(|c| c.result.short()).collect::<Vec<_>>()), case_json(&sc, &tr));
+                        }
+                        r.count("non_fault_runs", 1);
+                    }
+                }
+            }
             // random triples
             let n_triples = if quick { 3_000 } else { 1_000_000 };
             for _ in 0..n_triples / threads {
